@@ -134,7 +134,9 @@ func (mq *MessageQueue) buildMessage(size uint64, buildMessageFn func(*Builder))
 	builder := mq.builders[len(mq.builders)-1]
 	builder.reserved += size
 	buildMessageFn(builder)
-	return !builder.Empty()
+	// wake the queue also for a message that stayed empty but holds a reservation
+	// (the build function found nothing left to send): extracting it returns the memory
+	return !builder.Empty() || builder.reserved > 0
 }
 
 func shouldBeginNewResponse(builders []*Builder, blkSize uint64) bool {
